@@ -560,3 +560,96 @@ Print Assumptions C12_block_engine_real_instance.
 Print Assumptions C12_block_layout_pass.
 Print Assumptions C12_block_layout_passes.
 Print Assumptions C12_block_layout_pass_example.
+
+(* ------------------------------------------------------------------------------------------------------------ *)
+(** * Whole FLEX containers, and whole trees of block containers, flex containers and leaves (wave 6)
+
+   The flexbox entries of the site table (compute_flexbox_layout, compute_constants, generate_anonymous_flex_items,
+   determine_flex_base_size [flex_basis, main-axis component], determine_used_cross_size, perform_absolute_layout_on_absolute_children) as
+   THEOREMS about the model instead of a syntactic audit of the source: the rewrite of an eligible style implies the weak relation
+   `fstyle_wrel 1` (Model/FlexAlgRel.v: everything `flex_alg` reads of a style, the box-sizing fields only through the resolutions it
+   performs), and `flex_alg` (Model/FlexAlg.v: all of compute_flexbox_layout as a resumption, tied bit for bit by `vh flexalg`) is relational
+   for any style relation implying it (Proofs/FlexRelFinal.v: the proof of C04 at k = 1, where the floor of the scaled shrink factor is
+   unchanged -- so NO premise is left: the known finding grid-compressible-replaced-max-size is about grid items only). *)
+From TV Require Model.FlexAlgBase Model.FlexAlg Model.FlexAlgT Model.FlexAlgRel Model.FlexBoxSizing Model.BlockFlexEngine Model.BlockFlexK Model.BlockFlexExample.
+From TV Require Proofs.FlexRelFinal Proofs.FlexHomog Proofs.FlexBoxSizing Proofs.BlockFlexRel Proofs.BlockFlexExamples.
+Section FlexTrees.
+  Import TV.Model.Common TV.Model.Leaf TV.Model.Scale TV.Model.FlexAlgBase TV.Model.FlexAlg TV.Model.FlexAlgRel TV.Model.FlexBoxSizing.
+  Import TV.Model.Engine TV.Model.EngineRel TV.Proofs.EngineRelProofs.
+  Import TV.Model.BlockFlexEngine TV.Model.BlockFlexK TV.Model.BlockFlexExample.
+  Import TV.Proofs.FlexBoxSizing TV.Proofs.BlockFlexRel TV.Proofs.BlockFlexExamples.
+  Import ListNotations.
+
+  (* the rewrite on the flex view of a style IS the rewrite C12_leaf is about on its CoreStyle part, plus the flex_basis form of C12_flex_basis
+     for the direction `row` of the node's parent *)
+  Theorem C12_flex_rewrite_is_leaf_rewrite : forall row (s : FStyle XQ),
+    fs_core (f_to_border_box_in row s) = to_border_box (fs_core s) /\
+    fs_flex_basis (f_to_border_box_in row s) = flex_basis_to_border_box (style_pb (fs_core s)) row (fs_flex_basis s) /\
+    (f_eligibleb s = true -> eligible (fs_core s)).
+  Proof.
+    intros row s. split; [reflexivity|]. split; [reflexivity|]. intros E. unfold f_eligibleb in E. apply andb_prop in E. exact (proj1 E).
+  Qed.
+
+  (* every resolution flex_alg performs on a style is blind to the rewrite: the Gallina form of the flexbox entries of the site table *)
+  Theorem C12_flex_resolutions_blind : forall row (s s' : FStyle XQ), fbb_rel row s s' -> fstyle_wrel 1 row s s'.
+  Proof. exact fbb_weak. Qed.
+
+  (* the flex algorithm is box-sizing blind, premise-free: the container rewritten or not (for ANY direction `prow` of its own parent), ANY
+     subset of its eligible children rewritten (each for the container's direction: the flex_basis adjustment is the main-axis component),
+     inputs equal as numbers: the same children are queried with equal inputs, get equal stored layouts, equal results are returned, given
+     equal answers *)
+  Theorem C12_flex_algorithm_box_sizing_blind : forall prow s s' st st' i i',
+    fbb_rel prow s s' -> Forall2 (fbb_rel (fs_row s)) st st' -> fin_rel 1 i i' ->
+    AlgRel (FIn XQ) (LayoutOutput XQ) (FLay XQ) (fin_rel 1) (output_rel 1) (flay_rel 1) (flex_alg s st i) (flex_alg s' st' i').
+  Proof. exact flex_alg_box_sizing_blind. Qed.
+
+  (* ---- whole trees: the engine of Model/BlockFlexK.v with the floor 1.0, the real block preprocessing and absolute routine.  The per-node
+     rewrite cannot know the parent's direction, so the class is the direction-free one: eligible and flex_basis not a length *)
+  Theorem C12_blockflex_engine_box_sizing_blind :
+    BoxSizingBlind (BFNode XQ) (FIn XQ) (LayoutOutput XQ) (FLay XQ) bfn_ok bfn_tb bfn_elig (fin_rel 1) (output_rel 1) (flay_rel 1)
+                   (bfn_algo one BlockEngine.block_pre BlockAbs.abs_child_block).
+  Proof. exact bfn_algo_box_sizing_blind_real. Qed.
+
+  (* the conclusion of C12_engine: no premise on the algorithms *)
+  Theorem C12_blockflex_engine_instance :
+    forall f t t' i i',
+      trel (BFNode XQ) (FIn XQ) (LayoutOutput XQ) (FLay XQ) bfnode_bb (fin_rel 1) (output_rel 1) (flay_rel 1) t t' -> fin_rel 1 i i' ->
+      oprel (res_rel (BFNode XQ) (FIn XQ) (LayoutOutput XQ) (FLay XQ) bfnode_bb (fin_rel 1) (output_rel 1) (flay_rel 1))
+            (bf_memo f t i) (bf_memo f t' i').
+  Proof. exact bf_engine_box_sizing. Qed.
+
+  (* every subset of the eligible nodes of a fresh tree rewritten (bfn_to_border_box at the paths selected by `w`), the SAME input: the run
+     succeeds iff the original does, the root outputs and the stored layouts of ALL nodes are equal as numbers *)
+  Theorem C12_blockflex_engine_rewritten_layouts :
+    forall f (t : sk (BFNode XQ)) (w : list nat -> bool) i o t1,
+      sk_all (BFNode XQ) bfn_ok t -> bf_memo f (bfk_fresh t) i = Some (o, t1) ->
+      exists o' t1',
+        bf_memo f (bfk_fresh (sk_map_where (BFNode XQ) bfn_to_border_box w t)) i = Some (o', t1') /\ output_rel 1 o o' /\
+        Forall2 (flay_rel 1) (lays (BFNode XQ) (FIn XQ) (LayoutOutput XQ) (FLay XQ) t1) (lays (BFNode XQ) (FIn XQ) (LayoutOutput XQ) (FLay XQ) t1').
+  Proof. exact bf_engine_rewritten_layouts. Qed.
+
+  (* non-vacuity on the 10-node tree of Model/BlockFlexExample.v (block root, flex row container with a growing item, a fixed-width item,
+     a nested flex column container, a hidden and an absolute child): all eligible nodes / only the flex row container / everything but the
+     root rewritten -- root width 300 -> 308, the flex container becomes border-box, item b 60 -> 64 -- same layouts *)
+  Example C12_blockflex_engine_example :
+    sk_all (BFNode XQ) bfn_ok fx_tree /\
+    match fx_rewritten w_all with
+    | SNode _ r [_; SNode _ f [_; SNode _ b _; _; _; _]] =>
+        Some (width (size (bfn_core r)), box_sizing (bfn_core f), width (size (bfn_core b)))
+    | _ => None
+    end = Some (Length (qz 300 + (qz 4 + qz 0 + (qz 4 + qz 0)))%num, BorderBox, Length (qz 60 + (qz 2 + qz 0 + (qz 2 + qz 0)))%num) /\
+    fx_same_ok fx_tree (fx_rewritten w_all) fx_input = true /\
+    fx_same_ok fx_tree (fx_rewritten w_only_F) fx_input = true /\
+    fx_same_ok fx_tree (fx_rewritten w_not_root) fx_input = true.
+  Proof.
+    split; [apply fx_all_ok|]. split; [exact fx_rewrite_changes|]. split; [exact fx_same_all|]. split; [exact fx_same_F|exact fx_same_not_root].
+  Qed.
+End FlexTrees.
+
+Print Assumptions C12_flex_rewrite_is_leaf_rewrite.
+Print Assumptions C12_flex_resolutions_blind.
+Print Assumptions C12_flex_algorithm_box_sizing_blind.
+Print Assumptions C12_blockflex_engine_box_sizing_blind.
+Print Assumptions C12_blockflex_engine_instance.
+Print Assumptions C12_blockflex_engine_rewritten_layouts.
+Print Assumptions C12_blockflex_engine_example.
